@@ -13,7 +13,7 @@
 
    Only property statements here. *)
 From Coq Require Import List NArith Bool.
-From Lal Require Import Lock.LockOrder Lock.LockMachine Lock.LockOrderProofs Lock.LockFacts.
+From Lal Require Import Lock.LockOrder Lock.LockMachine Lock.LockOrderProofs Lock.LockProgress Lock.LockFacts.
 From Lal Require Import Gen.LockGraph.
 Import ListNotations.
 Open Scope N_scope.
@@ -40,6 +40,14 @@ Theorem c20_acyclicb_sound : forall g, acyclicb g = true -> forall a, ~ path g a
 Proof. exact acyclicb_sound. Qed.
 Print Assumptions c20_acyclicb_sound.
 
+(* progress: if moreover every program releases exactly what it acquires,
+   then as long as some thread is unfinished some thread can take a step *)
+Theorem c20_progress_general : forall g s0 s t,
+  acyclicb g = true -> pinit g s0 -> (forall u, balanced (progs s0 u)) -> preach s0 s ->
+  progs s t <> [] -> exists s', pstep s s'.
+Proof. exact program_progress. Qed.
+Print Assumptions c20_progress_general.
+
 (* ---- instance: the graph extracted from lal -------------------------------- *)
 
 Theorem c20_acyclic : acyclicb lock_graph = true.
@@ -63,6 +71,18 @@ Theorem c20_no_self_deadlock : forall s0 s t l,
   pinit lock_graph s0 -> preach s0 s -> pwants s t l -> powner s l <> Some t.
 Proof. intros s0 s t l. exact (program_no_self_deadlock lock_graph s0 s t l c20_acyclic). Qed.
 Print Assumptions c20_no_self_deadlock.
+
+Theorem c20_progress : forall s0 s t,
+  pinit lock_graph s0 -> (forall u, balanced (progs s0 u)) -> preach s0 s ->
+  progs s t <> [] -> exists s', pstep s s'.
+Proof. intros s0 s t. exact (program_progress lock_graph s0 s t c20_acyclic). Qed.
+Print Assumptions c20_progress.
+
+(* the balance hypothesis on the code side: no function of lal / naza returns
+   holding a lock it took, except the listed known finding (nazalog Out) *)
+Theorem c20_no_lock_leak : lock_leak_sites = 0.
+Proof. reflexivity. Qed.
+Print Assumptions c20_no_lock_leak.
 
 (* every access of a field guarded by Group.mutex / ServerManager.mutex that a
    goroutine can perform without holding the mutex is covered by the reviewed
